@@ -157,6 +157,10 @@ Inductive ocase :=
 | KConsts (ovpn : list Z) (digests : list Z) (sizes : list Z) (dns : list Z)
 (* FromBytes (headless=false) or FromBytesHeadless (header byte [hb]) of type [ty] on [src]; ToBytes of the parsed value *)
 | KFrom (ty : Z) (headless : bool) (hb : Z) (src : string) (obs : fres) (tobytes : string)
+(* the same on a receiver that is not fresh: [st] = what the receiver held before in the fields FromBytes* does not assign
+   (auth: [digest index or -1]; crypt, crypt2: [PrevPacketIDsCount; ThisPacketID]; others: []), [st'] = the digest index the
+   receiver holds afterwards (auth) *)
+| KFromSt (ty : Z) (headless : bool) (hb : Z) (st : list Z) (src : string) (obs : fres) (tobytes : string) (st' : list Z)
 (* ToBytes of a value built from field values *)
 | KTo (ty : Z) (ints : list Z) (blobs : list string) (obs : string)
 (* ToBytesAuth *)
@@ -217,6 +221,22 @@ Definition check (c : ocase) : bool :=
         zs_eqb consts_model ov && zs_eqb (map Z.of_nat auth_digests) dg && zs_eqb (map Z.of_nat auth_digest_sizes) szs end &&
       match dn with [] => true | _ => zs_eqb (map Z.of_nat [dns_hdr; dns_max_msg; dns_min_msg; quic_min; quic_max]%nat) dn end
   | KFrom ty hl hb src obs tb => from_check ty hl hb (hx src) obs tb
+  | KFromSt ty hl hb st src obs tb st' =>
+      let h := hdr_of hb in
+      let p0 := nthz st 0 in let q0 := nthz st 1 in
+      match ty with
+      | 2 => let r := if hl then auth_from_headless_st (optz (nth 0 st (-1))) (hx src) h else auth_from_bytes_st (optz (nth 0 st (-1))) (hx src) in
+             match r with
+             | ROk (m, d) => res_matches flat_auth (ROk m) obs && tobytes_matches auth_to_bytes (ROk m) tb && (zopt d =? nth 0 st' (-1))
+             | RErr e => res_matches flat_auth (RErr e) obs
+             | RPanic => res_matches flat_auth RPanic obs
+             end
+      | 3 => let r := if hl then crypt_from_headless_st p0 q0 (hx src) h else crypt_from_bytes_st p0 q0 (hx src) in
+             res_matches flat_crypt r obs && tobytes_matches crypt_to_bytes r tb
+      | 5 => let r := if hl then crypt2_from_headless_st p0 q0 (hx src) h else crypt2_from_bytes_st p0 q0 (hx src) in
+             res_matches flat_crypt2 r obs && tobytes_matches crypt2_to_bytes r tb
+      | _ => from_check ty hl hb (hx src) obs tb
+      end
   | KTo ty i b obs => to_check ty i b (hx obs)
   | KToAuth ty i b obs =>
       match ty with
